@@ -337,6 +337,31 @@ fn main() {
             }
             println!("{}", json!({"found": false, "op": op.name, "tried": tried, "inside_precondition": in_pre}));
         }
+        Some("exhaust-gregorian") => {
+            // every calendar day of years y0..=y1, three times of day, two scales: build -> decompose -> compare (bounded, exhaustive)
+            let y0: i128 = argv.get(2).and_then(|s| s.parse().ok()).unwrap_or(1);
+            let y1: i128 = argv.get(3).and_then(|s| s.parse().ok()).unwrap_or(9999);
+            let op = find_op("gregorian_roundtrip");
+            let mut n = 0u64;
+            for y in y0..=y1 {
+                for mo in 1..=12 {
+                    for d in 1..=month_len(y, mo) {
+                        for (h, mi, s, ns) in [(0, 0, 0, 0), (12, 0, 0, 0), (23, 59, 59, 999_999_999)] {
+                            for ts in [0u8, 2] {
+                                let args = vec![Arg::I(y), Arg::I(mo), Arg::I(d), Arg::I(h), Arg::I(mi), Arg::I(s), Arg::I(ns), Arg::Ts(ts)];
+                                let r = run_op(op, &args, false);
+                                n += 1;
+                                if r["agrees"] == json!(false) {
+                                    println!("{}", r);
+                                    std::process::exit(1);
+                                }
+                            }
+                        }
+                    }
+                }
+            }
+            println!("{}", json!({"found": false, "op": "gregorian_roundtrip", "exhaustive": format!("years {}..={}", y0, y1), "tried": n}));
+        }
         _ => {
             eprintln!("usage: vx-replay run <json> | falsify <op> <seed> <iters> | ops");
             std::process::exit(2);
